@@ -12,6 +12,7 @@ Op language (lists, explicit token / item names so that dropped ops degrade to n
   ["get", c, tok]                      get
   ["cp", c, tok] / ["cg", c, tok]      cancel put / get reservation (pending or granted)
   ["adv", dt, "after"|"before"]        let time pass; "before": arrive at t+dt ahead of that instant's timers
+  ["step", n]                          process up to n kernel events of the current instant (calls land between same-instant events)
   ["probe"]                            can_put/can_get/occupancy + probe reservations (C11)
 Special token names: "@fresh" (an event nobody issued), "@none".
 Whether a put/get/cancel is well-formed is decided from the harness' own view of the token at the
@@ -736,7 +737,17 @@ class HarnessA:
         self.ops_done.append(op)
         k = op[0]
         res = None
-        if k == "adv":
+        if k == "step":
+            # process up to n kernel events of the CURRENT instant: the next client call lands between two same-instant events
+            n = 0
+            for _ in range(op[1]):
+                if self.env.peek() <= self.env.now:
+                    self.env.step()
+                    n += 1
+            if n:
+                self.probe("call_between_same_instant_events")
+            res = "step"
+        elif k == "adv":
             dt, mode = op[1], op[2]
             if dt > 0:
                 self.probe("adv")
